@@ -224,6 +224,7 @@ func NewDB(opts *DBOpts) (*DB, error) {
 	}
 	if opts.VirtualTime {
 		db.clock = vtime.NewVirtualClock(time.Time{})
+		verifInitClock(db)
 	}
 	if opts.MaxWALSize <= 0 {
 		opts.MaxWALSize = 10 * 1024768 // 10 MB
